@@ -50,7 +50,7 @@ def configs(r, tier_quick):
 def lp_scenario(lp, sid, r, quick=True, how=None, witness=True, cfgs=None, check_binv=True):
     """returns (scenario text, witness event or None)"""
     lines = ["scenario %s" % sid, "handler on"]
-    lines += lpfam.build_cmds(lp, "h0", how or r.choice(["load", "create"]))
+    lines += lpfam.build_cmds(lp, "h0", how or r.choice(lpfam.BUILD_MODES))
     lines.append("dump h0")
     w = None
     if witness:
